@@ -24,8 +24,8 @@ var _ backoff.BackOff
 //@ props C10 C11
 //@ option nilable:err
 //@ assigns nothing
-//@ ensures [C11.validate] (result == nil) == (err == nil && c == ipmi.CompletionCodeNormal)
-//@ ensures [C11.validate-err] err != nil ==> result == err
+//@ ensures [C10+C11.validate] (result == nil) == (err == nil && c == ipmi.CompletionCodeNormal)
+//@ ensures [C10+C11.validate-err] err != nil ==> result == err
 
 // ---- cipher_suites.go
 
@@ -81,6 +81,7 @@ var _ backoff.BackOff
 //@ at SerializeLayers assert [C03+C10+C17.message] s.messageLayer.Operation == *c.Operation() && s.messageLayer.RemoteAddress == 0x20 && s.messageLayer.RemoteLUN == c.RemoteLUN() &&
 //@    s.messageLayer.LocalAddress == 0x81 && s.messageLayer.Sequence == 1 && s.messageLayer.CompletionCode == 0
 //@ at SerializeLayers assert [C03+C10+C17.rmcp] s.rmcpLayer.Version == 6 && s.rmcpLayer.Sequence == 0xff && s.rmcpLayer.Class == 7 && !s.rmcpLayer.Ack
+//@ at dynamic:github.com/google/gopacket.DecodingLayerFunc assert [C04.decode-with-k1] s.v2SessionLayer.IntegrityAlgorithm == s.integrityAlgorithm && s.v2SessionLayer.ConfidentialityLayerType == s.confidentialityLayer.LayerType() // the reply is verified with the session's own integrity algorithm, not with whatever a reset left in the layer
 //@ at Transport).Send assert [C09.send-seq] s.AuthenticatedSequenceNumbers.Inbound == old(s.AuthenticatedSequenceNumbers.Inbound)+1 && s.v2SessionLayer.Sequence == s.AuthenticatedSequenceNumbers.Inbound
 //@ ensures [C09.step] s.AuthenticatedSequenceNumbers.Inbound == old(s.AuthenticatedSequenceNumbers.Inbound)+uint32(sends()-old(sends())) && sends()-old(sends()) <= 1
 //@ ensures [C10.terminal] !isnil(captured[error]()) ==> result == nil
